@@ -106,9 +106,14 @@ class PluginGen(object):
         gen = gen_motion.MotionGen(rng.randint(0, 10 ** 9))
         if kind == "add" or (kind in ("update", "delete", "dupadd") and not self.regions):
             reg = gen.make_region()
-            if rng.random() < 0.8:
+            roll = rng.random()
+            if roll < 0.7:
                 self.nextId += 1
                 rid = "p%d" % self.nextId
+            elif roll < 0.85:
+                # ids that are legal but falsy / not strings (a client may send any JSON value);
+                # repeated on purpose: the second add of the same one has to be refused
+                rid = rng.choice([0, "", 0, 7])
             else:
                 rid = None
             self.steps.append(("api", "addExcludeRegion", self.region_data(reg, rid), False))
@@ -325,3 +330,109 @@ def generate(seed, focus=None, exact_only=True, g90e=None):
     if g90e is not None:
         gen.g90e = g90e
     return gen.build()
+
+
+# ---------------------------------------------------------------------- sub-grid API histories
+def _spec(reg, rid):
+    """API payload of a region given in native units (1e-4 mm)."""
+    if reg["t"] == "rect":
+        return {"type": "RectangularRegion", "id": rid, "x1": reg["x1"] / 10000.0,
+                "y1": reg["y1"] / 10000.0, "x2": reg["x2"] / 10000.0, "y2": reg["y2"] / 10000.0}
+    return {"type": "CircularRegion", "id": rid, "cx": reg["cx"] / 10000.0,
+            "cy": reg["cy"] / 10000.0, "r": reg["r"] / 10000.0}
+
+
+def _covers(new, old):
+    """Exact integer containment (closed sets), the reference the generator's own view follows."""
+    if new["t"] == "rect":
+        box = (old["x1"], old["y1"], old["x2"], old["y2"]) if old["t"] == "rect" else \
+            (old["cx"] - old["r"], old["cy"] - old["r"], old["cx"] + old["r"], old["cy"] + old["r"])
+        return new["x1"] <= box[0] and new["y1"] <= box[1] and new["x2"] >= box[2] \
+            and new["y2"] >= box[3]
+    if old["t"] == "rect":
+        return all((x - new["cx"]) ** 2 + (y - new["cy"]) ** 2 <= new["r"] ** 2
+                   for x in (old["x1"], old["x2"]) for y in (old["y1"], old["y2"]))
+    gap = new["r"] - old["r"]
+    return gap >= 0 and (new["cx"] - old["cx"]) ** 2 + (new["cy"] - old["cy"]) ** 2 <= gap ** 2
+
+
+def fine_history(seed):
+    """
+    Requests during an active print whose geometry differs from the registered one by a few
+    native units (1e-4 mm): nearly-touching borders, minute shrinks and shifts that would add up
+    if any of them were accepted.  Discs stay below 3 mm radius so that the trace can be judged
+    with exact integer arithmetic (q = 1) inside TLC's 32 bit integers.
+    """
+    rng = random.Random(seed)
+    hist = History(seed, False)
+    hist.focus = "fine"
+    hist.q = 1
+    steps = []
+    view = []
+    for index in range(rng.choice([1, 2, 2, 3])):
+        cx, cy = rng.randint(200000, 1800000), rng.randint(200000, 1800000)
+        if rng.random() < 0.7:
+            reg = {"t": "circ", "cx": cx, "cy": cy,
+                   "r": rng.choice([5000, 10000, 25000, 30000, 12345, 100])}
+        else:
+            reg = {"t": "rect", "x1": cx, "y1": cy, "x2": cx + rng.choice([10000, 23456, 300000]),
+                   "y2": cy + rng.choice([10000, 34567, 200000])}
+        reg["id"] = "f%d" % (index + 1)
+        steps.append(("api", "addExcludeRegion", _spec(reg, reg["id"]), False))
+        view.append(reg)
+    if rng.random() < 0.15:
+        steps.append(("set", "mayShrinkRegionsWhilePrinting", True, None))
+        steps.append(("pev", "SettingsUpdated"))
+    steps.append(("pev", "PrintStarted"))
+    for _ in range(rng.randint(8, 30)):
+        old = rng.choice(view)
+        d = rng.choice([1, 2, 3, 5, 7, 9, 10, 11, 15, 40])
+        new = dict(old)
+        if old["t"] == "circ":
+            how = rng.choice(["shrink", "shrink", "shift", "shift", "grow", "tangent", "short",
+                              "same", "box", "boxcut"])
+            if how == "shrink":
+                new["r"] = max(0, old["r"] - d)
+            elif how == "shift":
+                new[rng.choice(["cx", "cy"])] += rng.choice([-d, d])
+            elif how == "grow":
+                new["r"] = min(30000, old["r"] + d)
+            elif how in ("tangent", "short"):
+                k = rng.choice([1, 2, 10, 100])
+                new["cx"] += 3 * k * rng.choice([-1, 1])
+                new["cy"] += 4 * k * rng.choice([-1, 1])
+                new["r"] = old["r"] + 5 * k - (0 if how == "tangent" else rng.choice([1, 2, 5]))
+                if new["r"] > 30000:
+                    continue
+            elif how in ("box", "boxcut"):
+                new = {"t": "rect", "id": old["id"], "x1": old["cx"] - old["r"],
+                       "y1": old["cy"] - old["r"], "x2": old["cx"] + old["r"],
+                       "y2": old["cy"] + old["r"]}
+                if how == "boxcut":
+                    side = rng.choice(["x1", "y1", "x2", "y2"])
+                    new[side] += d if side in ("x1", "y1") else -d
+        else:
+            how = rng.choice(["cut", "cut", "grow", "slide", "same", "swap"])
+            if how == "cut":
+                side = rng.choice(["x1", "y1", "x2", "y2"])
+                new[side] += d if side in ("x1", "y1") else -d
+            elif how == "grow":
+                new["x1"] -= d
+                new["y2"] += d
+            elif how == "slide":
+                new["x1"] += d
+                new["x2"] += d
+            elif how == "swap":
+                new["x1"], new["x2"] = old["x2"], old["x1"]
+        steps.append(("api", "updateExcludeRegion", _spec(new, old["id"]), False))
+        norm = dict(new)
+        if norm["t"] == "rect":
+            norm["x1"], norm["x2"] = min(new["x1"], new["x2"]), max(new["x1"], new["x2"])
+            norm["y1"], norm["y2"] = min(new["y1"], new["y2"]), max(new["y1"], new["y2"])
+        if _covers(norm, old):
+            view[view.index(old)] = norm
+        if rng.random() < 0.15:
+            steps.append(("get",))
+    hist.steps = steps
+    hist.regions_view = []
+    return hist
